@@ -8,6 +8,7 @@ pub mod h5;
 pub mod hash;
 pub mod nsprobe;
 pub mod pass;
+pub mod patho;
 pub mod proto;
 pub mod lex;
 pub mod mem;
@@ -32,6 +33,7 @@ pub fn find(name: &str) -> Option<LaneFn> {
         "hash" => hash::run,
         "nsprobe" => nsprobe::run,
         "pass" => pass::run_lane,
+        "patho" => patho::run,
         "proto" => proto::run,
         "lex" => lex::run,
         "fault" => lex::run_fault,
